@@ -1,0 +1,15 @@
+//go:build verif
+
+// Contracts for package sha (comment-only; see /verif/DESIGN.md).
+
+package sha
+
+//@ func SHA1.String
+//@   returns str
+//@   pure
+//@   ensures [hex] {C01,C19} str == hex(s)
+
+//@ func SHA1.Compare
+//@   returns eq
+//@   pure
+//@   ensures [iff] {C07,C13} eq <==> string(s) == string(other)
